@@ -241,3 +241,169 @@ func (p *Program) applyCalleePost(info *types.Info, n *Facts, st ast.Node) {
 		}
 	}
 }
+
+// ---------------------------------------------------------------------------
+// Result-length postconditions:  r := f.helper(n)  with helper returning x[:n] (or x[k:n]) gives len(r) == n-k.
+
+type resLen struct {
+	resultIdx int
+	hi        ast.Expr // in terms of the callee's parameters
+	lo        int
+}
+
+// valueParams: every parameter and the receiver of callee that the body never re-binds.
+func (p *Program) stableParams(callee *FuncInfo) map[types.Object]int {
+	out := map[types.Object]int{}
+	if callee.Obj == nil || callee.Decl.Body == nil {
+		return out
+	}
+	sig := callee.Obj.Type().(*types.Signature)
+	if rv := sig.Recv(); rv != nil {
+		out[rv] = -1
+	}
+	for i := 0; i < sig.Params().Len(); i++ {
+		out[sig.Params().At(i)] = i
+	}
+	info := callee.Pkg.TypesInfo
+	ast.Inspect(callee.Decl.Body, func(n ast.Node) bool {
+		switch s := n.(type) {
+		case *ast.AssignStmt:
+			for _, l := range s.Lhs {
+				if id, ok := l.(*ast.Ident); ok {
+					delete(out, info.Uses[id])
+				}
+			}
+		case *ast.IncDecStmt:
+			if id, ok := s.X.(*ast.Ident); ok {
+				delete(out, info.Uses[id])
+			}
+		case *ast.UnaryExpr:
+			if s.Op == token.AND {
+				if id, ok := ast.Unparen(s.X).(*ast.Ident); ok {
+					delete(out, info.Uses[id])
+				}
+			}
+		}
+		return true
+	})
+	return out
+}
+
+func (p *Program) resultLens(callee *FuncInfo) []resLen {
+	if p.resLenCache == nil {
+		p.resLenCache = map[*FuncInfo][]resLen{}
+	}
+	if v, ok := p.resLenCache[callee]; ok {
+		return v
+	}
+	p.resLenCache[callee] = nil
+	if callee.Decl.Body == nil || callee.Obj == nil {
+		return nil
+	}
+	sig := callee.Obj.Type().(*types.Signature)
+	info := callee.Pkg.TypesInfo
+	params := p.stableParams(callee)
+	// only plain int-like value parameters can stand for a length
+	var out []resLen
+	for ri := 0; ri < sig.Results().Len(); ri++ {
+		if _, isSl := sig.Results().At(ri).Type().Underlying().(*types.Slice); !isSl {
+			continue
+		}
+		var hi ast.Expr
+		lo, okAll, n := 0, true, 0
+		ast.Inspect(callee.Decl.Body, func(x ast.Node) bool {
+			if _, isLit := x.(*ast.FuncLit); isLit {
+				return false
+			}
+			rs, ok := x.(*ast.ReturnStmt)
+			if !ok {
+				return true
+			}
+			if len(rs.Results) != sig.Results().Len() {
+				okAll = false
+				return true
+			}
+			e := ast.Unparen(rs.Results[ri])
+			if isNil(info, e) {
+				return true // error returns carry no slice
+			}
+			n++
+			if id, isId := e.(*ast.Ident); isId {
+				if singleAssigned(info, callee.Decl.Body, info.Uses[id]) {
+					if d := localDef(info, callee, id); d != nil {
+						e = ast.Unparen(d)
+					}
+				}
+			}
+			sl, isSl := e.(*ast.SliceExpr)
+			if !isSl || sl.High == nil || sl.Slice3 {
+				okAll = false
+				return true
+			}
+			l := 0
+			if sl.Low != nil {
+				k, isK := constInt(info, sl.Low)
+				if !isK || k < 0 {
+					okAll = false
+					return true
+				}
+				l = int(k)
+			}
+			if !p.onlyParams(info, sl.High, params) {
+				okAll = false
+				return true
+			}
+			if hi == nil {
+				hi, lo = sl.High, l
+			} else if exprStr(hi) != exprStr(sl.High) || lo != l {
+				okAll = false
+			}
+			return true
+		})
+		if okAll && n > 0 && hi != nil {
+			out = append(out, resLen{ri, hi, lo})
+		}
+	}
+	p.resLenCache[callee] = out
+	return out
+}
+
+// callSubst maps the callee's stable parameters to the actual arguments of call c.
+func (p *Program) callSubst(callee *FuncInfo, c *ast.CallExpr) map[types.Object]ast.Expr {
+	sub := map[types.Object]ast.Expr{}
+	for obj, idx := range p.stableParams(callee) {
+		var arg ast.Expr
+		if idx < 0 {
+			arg = recvExpr(c)
+		} else if idx < len(c.Args) {
+			arg = c.Args[idx]
+		}
+		if arg == nil {
+			continue
+		}
+		arg = ast.Unparen(arg)
+		if u, ok := arg.(*ast.UnaryExpr); ok && u.Op == token.AND {
+			arg = ast.Unparen(u.X)
+		}
+		sub[obj] = arg
+	}
+	return sub
+}
+
+// resultLenOf: the length of result idx of call c as an expression of the caller (nil when unknown).
+func (p *Program) resultLenOf(info *types.Info, c *ast.CallExpr, idx int) (ast.Expr, int, bool) {
+	fn := calleeOf(info, c)
+	if fn == nil {
+		return nil, 0, false
+	}
+	callee := p.FuncOf(fn)
+	if callee == nil || callee.Pkg != p.Root {
+		return nil, 0, false
+	}
+	for _, rl := range p.resultLens(callee) {
+		if rl.resultIdx == idx {
+			return substParamsExpr(info, rl.hi, p.callSubst(callee, c)), rl.lo, true
+		}
+	}
+	return nil, 0, false
+}
